@@ -116,11 +116,21 @@ def options_digest(o):
                             ".".join(counts[k] for k in COUNTER_KINDS), "e" if o.get("threads_empty") else "-")
 
 
+NOT_KEYWORDS_2015 = ("try", "async", "await", "dyn")
+
+
 class Prog:
-    def __init__(self, crate, items):
+    def __init__(self, crate, items, edition="2021"):
         self.crate = crate
         self.items = items
+        self.edition = edition
         self.number()
+
+    def spell(self, raw):
+        """How module_path!() spells a module identifier in this crate's edition."""
+        if self.edition == "2015" and raw.startswith("r#") and raw[2:] in NOT_KEYWORDS_2015:
+            return raw[2:]
+        return raw
 
     # ---- identities exactly as Model/Registry.v expand assigns them (pre-order, one counter) ----
     def number(self):
@@ -161,7 +171,7 @@ class Prog:
 
     # ---- the line for the model ----
     def tokens(self):
-        out = ["P," + enc(self.crate)]
+        out = ["P," + enc(self.crate) + ("" if self.edition == "2021" else "," + self.edition)]
 
         def go(items, line):
             for it in items:
@@ -208,7 +218,7 @@ class Prog:
                     g = it.get("group")
                     if g is not None:
                         recs.append("%s~%s~%d=%s" % (enc(modpath), enc(it["raw"]), g["line"], options_digest(g.get("opts"))))
-                    go(it["items"], modpath + "::" + it["raw"])
+                    go(it["items"], modpath + "::" + self.spell(it["raw"]))
                 else:
                     go(it["items"], modpath)
         go(self.items, self.crate)
@@ -230,7 +240,7 @@ class Prog:
         def cur_line():
             return sum(x.count("\n") + 1 for x in L) + 1
 
-        emit(SUPPORT)
+        emit(SUPPORT if self.edition != "2015" else SUPPORT.replace("pub mod support {", "extern crate divan;\npub mod support {", 1))
         emit("pub mod tys { #[derive(Default)] pub struct A; #[derive(Default)] pub struct B; pub mod inner { #[derive(Default)] pub struct A; } #[derive(Default)] pub struct W<T>(pub T); }")
         emit("fn main() { support::child_main() }")
 
@@ -319,7 +329,7 @@ class Prog:
                     else:
                         ncols = len(it["rows"][0]) if it["rows"] else 0
                         if types is not None:
-                            r = "support::pos_of(&[%s], std::any::type_name::<T>())" % ", ".join("std::any::type_name::<%s>()" % TYPES[i][0] for i in types)
+                            r = "support::pos_of(&[%s], ::std::any::type_name::<T>())" % ", ".join("::std::any::type_name::<%s>()" % TYPES[i][0] for i in types)
                         else:
                             r = "0"
                         if consts is not None and not consts[2]:
@@ -529,7 +539,7 @@ debug-assertions = false
 
 def crate_dir(prog, cache):
     src = prog.source()
-    h = hashlib.sha256((prog.crate + "\n" + src).encode()).hexdigest()[:12]
+    h = hashlib.sha256((prog.crate + "\n" + prog.edition + "\n" + src).encode()).hexdigest()[:12]
     return os.path.join(cache, "e2e", prog.crate + "-" + h), src
 
 
@@ -546,8 +556,8 @@ def build_crate(prog, cache, repo, timeout=900, target=None):
     with open(os.path.join(d, "src", "main.rs"), "w") as f:
         f.write(src)
     with open(os.path.join(d, "Cargo.toml"), "w") as f:
-        f.write('[package]\nname = "%s"\nversion = "0.0.0"\nedition = "2021"\npublish = false\n\n[dependencies]\ndivan = { path = "%s" }\n\n'
-                '%s\n[workspace]\n' % (prog.crate, repo, HARNESS_PROFILE))
+        f.write('[package]\nname = "%s"\nversion = "0.0.0"\nedition = "%s"\npublish = false\n\n[dependencies]\ndivan = { path = "%s" }\n\n'
+                '%s\n[workspace]\n' % (prog.crate, prog.edition, repo, HARNESS_PROFILE))
     here = os.path.dirname(os.path.dirname(os.path.dirname(os.path.abspath(__file__))))
     shutil.copy(os.path.join(here, "harness", "hx-run", ".cargo", "config.toml"), os.path.join(d, ".cargo", "config.toml"))
     lock = os.path.join(d, "Cargo.lock")
@@ -795,3 +805,26 @@ def feature_tour(crate):
           group=dict(name="Hosts", opts=dict(ignore=True, attr=True))),
     ]
     return Prog(crate, items)
+
+
+def edition_2015_crate(crate="e2e_2015"):
+    """Edition 2015: module_path!() spells `mod r#try` (r#async, r#await, r#dyn: not keywords in that edition) without
+    the r#, while the bench_group's raw name is the identifier as written.  Groups on such modules, on raw modules that
+    are keywords in every edition (r#loop, r#match) and on plain ones; nested both ways; observable name / ignore / sample_count."""
+    M = lambda raw, items, group=None: dict(k="M", raw=raw, items=items, group=group)
+    items = [
+        F("top"),
+        M("r#try", [F("a"), F("a_args", args=("arr_i", [1, 2]))], group=dict(name="renamed try", opts=dict(ignore=True))),
+        M("r#async", [F("b"), F("b_gen", types=[0, 1])], group=dict(name="renamed async", opts=dict(sample_count=3))),
+        M("r#dyn", [F("c"), F("c_opt_out", opts=dict(ignore=False, explicit=True))], group=dict(opts=dict(ignore=True, how="reason"))),
+        M("r#await", [F("d")], group=dict(name="renamed await")),
+        M("r#loop", [F("e")], group=dict(name="renamed loop", opts=dict(ignore=True))),
+        M("r#match", [F("f")], group=dict(opts=dict(ignore=True, attr=True))),
+        M("plain", [F("g")], group=dict(name="renamed plain", opts=dict(ignore=True))),
+        # raw inside plain (group on the inner); plain inside raw, group on the inner and on the outer; deeper nesting
+        M("outer_plain", [F("h"), M("r#try", [F("i")], group=dict(name="inner try", opts=dict(ignore=True)))]),
+        M("outer_g", [M("r#async", [F("l"), M("deep", [F("m")], group=dict(name="Deep", opts=dict(sample_count=2)))],
+                        group=dict(name="inner async"))], group=dict(name="Outer G", opts=dict(ignore=True))),
+        M("host", [M("r#await", [M("in_raw", [F("n")], group=dict(name="In Raw", opts=dict(ignore=True)))])]),
+    ]
+    return Prog(crate, items, edition="2015")
